@@ -272,6 +272,25 @@ func runC04(c c04Case) (res c04Result) {
 				got, err := safeRead(d.r, bytes.NewReader(wire))
 				if err != nil || string(got) != "probe-"+d.name {
 					res.disagree = append(res.disagree, "record_"+d.name)
+					continue
+				}
+				// "complementary traffic keys" is more than the first key:
+				// the two ends ratchet to the next key after 500 records,
+				// from state the handshake left them (clean runs, one in
+				// four)
+				if !edited && c.Cfg.Seed%4 == 0 {
+					for k := 0; k < 501; k++ {
+						w2, err := writeRecord(d.w, []byte{byte(k)})
+						if err != nil {
+							res.disagree = append(res.disagree, "record_write_"+d.name)
+							break
+						}
+						g2, err := safeRead(d.r, bytes.NewReader(w2))
+						if err != nil || len(g2) != 1 || g2[0] != byte(k) {
+							res.disagree = append(res.disagree, fmt.Sprintf("record_%d_%s_after_the_handshake_does_not_decrypt(key_rotation)", k+1, d.name))
+							break
+						}
+					}
 				}
 			}
 		}
